@@ -10,6 +10,7 @@ clause of the property statement:
   status = waiting   at [qb,qa]  ⇒ not yet popped             ⇒ no body start before qb
   status = not-found at [qb,qa]  ⇒ finished, cancelled or dropped ⇒ body end before qa, or an
                                     earlier successful cancel, or an earlier cleanup
+  cleanup: a task popped certainly after cleanup()'s critical section (see `checkDropped`) must not run
   status = executing             ⇒ the task runs (a body is recorded), no cancel ever succeeds
   cancel = 0                     ⇒ the task never runs
   pick order: a task `a` that was certainly waiting during the whole interval in which worker W
@@ -83,6 +84,7 @@ structure Hist where
   cbs : Array CbEv := #[]
   extra : List Nat := []           -- tasks whose body or callback was entered a second time
   cleanup : Option (Nat × Nat) := none
+  cleanupCs : Nat := 0             -- a sequence number taken right AFTER cleanup()'s critical section (0 = unknown)
   nestedNull : List (Nat × Nat) := []   -- nested execute() calls that returned a null token: (qb, qa)
 deriving Repr, Inhabited
 
@@ -226,6 +228,19 @@ def checkWorkers (h : Hist) : Option String :=
       if w.e == 0 || w.e > qa then some s!"worker thread {w.thr} was still running when cleanup() returned at {qa} (its thread function returned at {w.e}): not joined"
       else none
 
+/-- "…or cleanup began before it started, in which case it is never executed": cleanup() sets the stop flag and
+drops the waiting tasks in ONE critical section, which lies before `cleanupCs`.  A task whose pop certainly happened
+after that number — the previous body on the same worker thread ended after it, or that worker thread only started
+after it — was still waiting when the flag was set, so it must never be executed. -/
+def checkDropped (h : Hist) : Option String :=
+  if h.cleanupCs == 0 then none else
+  firstSome h.bodies.toList fun b =>
+    let ws := match h.workers.find? (·.thr == b.thr) with | some w => w.s | none => 0
+    let lo := max (prevEnd h b) ws
+    if lo > h.cleanupCs then
+      some s!"task {b.k} was executed ({b.s}..{b.e}) although it was still waiting when cleanup() set the stop flag (before {h.cleanupCs}; its worker was busy until {lo}): tasks waiting at cleanup must never run"
+    else none
+
 /-- a nested execute() may return a null token only when the pool is no longer ready (cleanup has begun) -/
 def checkNested (h : Hist) : Option String :=
   firstSome h.nestedNull fun (qb, qa) =>
@@ -239,7 +254,7 @@ def checkOverlap (h : Hist) : Option String :=
     if n > h.max then some s!"{n} task bodies executing at once exceed the maximum of {h.max} workers" else none
 
 def check (h : Hist) : Except String Nat :=
-  match checkBodies h <|> checkCbs h <|> checkQueries h <|> checkSnaps h <|> checkOverlap h <|> checkWorkers h <|> checkNested h with
+  match checkBodies h <|> checkCbs h <|> checkQueries h <|> checkSnaps h <|> checkOverlap h <|> checkWorkers h <|> checkNested h <|> checkDropped h with
   | some e => .error e
   | none => checkOrder h
 
